@@ -173,7 +173,7 @@ impl C14 {
             v.too_big(
                 len,
                 limit,
-                r.map(|_| Some(h.total_len as usize - hl)).map_err(|e| (e.actual, e.max_allowed)),
+                r.map(|_| Some((h.total_len as usize).wrapping_sub(hl))).map_err(|e| (e.actual, e.max_allowed)),
                 unchanged,
             );
             if len <= 65535 {
@@ -182,7 +182,7 @@ impl C14 {
                 v.too_big(
                     len,
                     65535 - 20,
-                    r.map(|h| Some(h.total_len as usize - 20)).map_err(|e| (e.actual as usize, e.max_allowed as usize)),
+                    r.map(|h| Some((h.total_len as usize).wrapping_sub(20))).map_err(|e| (e.actual as usize, e.max_allowed as usize)),
                     true,
                 );
             }
@@ -266,7 +266,7 @@ impl C14 {
         for len in probes(limit, &[]) {
             let r = UdpHeader::without_ipv4_checksum(1, 2, len);
             let mut v = Verdict { rep, api: "UdpHeader::without_ipv4_checksum" };
-            v.too_big(len, limit, r.map(|h| Some(h.length as usize - 8)).map_err(|e| (e.actual, e.max_allowed)), true);
+            v.too_big(len, limit, r.map(|h| Some((h.length as usize).wrapping_sub(8))).map_err(|e| (e.actual, e.max_allowed)), true);
         }
         let ip4 = Ipv4Header::new(0, 1, IpNumber(17), [1, 2, 3, 4], [5, 6, 7, 8]).unwrap();
         let ip6 = Ipv6Header::default();
@@ -275,10 +275,10 @@ impl C14 {
             let p = self.zeros(len);
             let r = UdpHeader::with_ipv4_checksum(1, 2, &ip4, p);
             let mut v = Verdict { rep, api: "UdpHeader::with_ipv4_checksum" };
-            v.too_big(len, limit, r.map(|h| Some(h.length as usize - 8)).map_err(|e| (e.actual, e.max_allowed)), true);
+            v.too_big(len, limit, r.map(|h| Some((h.length as usize).wrapping_sub(8))).map_err(|e| (e.actual, e.max_allowed)), true);
             let r = UdpHeader::with_ipv6_checksum(1, 2, &ip6, p);
             let mut v = Verdict { rep, api: "UdpHeader::with_ipv6_checksum" };
-            v.too_big(len, limit, r.map(|h| Some(h.length as usize - 8)).map_err(|e| (e.actual, e.max_allowed)), true);
+            v.too_big(len, limit, r.map(|h| Some((h.length as usize).wrapping_sub(8))).map_err(|e| (e.actual, e.max_allowed)), true);
             let hdr = UdpHeader {
                 source_port: 1,
                 destination_port: 2,
